@@ -24,7 +24,7 @@ rsync -a --exclude .git --exclude examples --exclude 'socket/example' --exclude 
 # hash of the copied tree + of the harness sources
 H=$( (cd "$SCR/repo" && find . -type f | LC_ALL=C sort | xargs sha1sum; cd $VERIF && find simrt simnet world props tools runner -name '*.go' 2>/dev/null | LC_ALL=C sort | xargs sha1sum; echo $MODE) | sha1sum | cut -c1-16)
 OUT=$VERIF/.build/simtest-$MODE-$H
-if [ -x "$OUT" ]; then echo "build: cache hit $OUT" >&2; echo "$OUT"; exit 0; fi
+if [ -x "$OUT" ]; then touch "$OUT"; echo "build: cache hit $OUT" >&2; echo "$OUT"; exit 0; fi
 
 [ -x $VERIF/.build/instrument ] && [ $VERIF/.build/instrument -nt $VERIF/tools/instrument/main.go ] || \
   (cd $VERIF && $GO build -o .build/instrument ./tools/instrument) || fail "instrumenter build failed"
@@ -47,6 +47,9 @@ FLAGS="-tags verif -trimpath"
 if [ "$MODE" = race ]; then FLAGS="$FLAGS -race -gcflags=all=-d=checkptr=0"; fi
 (cd $VERIF && $GO test -c $FLAGS -modfile="$SCR/harness.mod" -o "$OUT.tmp.$$" ./props) >&2 || { rm -f "$OUT.tmp.$$"; fail "harness build failed"; }
 mv "$OUT.tmp.$$" "$OUT"
-# keep the cache small
-ls -t $VERIF/.build/simtest-* 2>/dev/null | tail -n +7 | xargs -r rm -f
+# keep the cache small: beyond the 6 newest binaries, remove those not used for two hours (a thorough run of
+# another property may still be executing an older one)
+ls -t $VERIF/.build/simtest-* 2>/dev/null | tail -n +7 | while read -r f; do
+  [ -n "$(find "$f" -mmin +120 2>/dev/null)" ] && rm -f "$f"
+done
 echo "$OUT"
